@@ -36,7 +36,7 @@ func profiles() map[string]Profile {
 	p.Name = "C02"
 	p.MemOnly = 0
 	p.Flush, p.Reopen, p.SetColl, p.RmColl, p.Image, p.Dump = 10, 10, 3, 2, 3, 4
-	p.BigVals, p.LongNames = true, true
+	p.BigVals, p.LongNames, p.BadNames = true, true, true
 	m["C02"] = p
 
 	p = base
@@ -81,7 +81,7 @@ func profiles() map[string]Profile {
 	p = base
 	p.Name = "C12"
 	p.SetColl, p.RmColl, p.Names, p.Dump, p.MaxColls, p.Reopen, p.Flush = 10, 6, 6, 5, 6, 6, 8
-	p.LongNames = true
+	p.LongNames, p.BadNames = true, true
 	m["C12"] = p
 
 	p = base
